@@ -177,7 +177,7 @@ theorem skipElem_ge (p : List Nat) : ∀ n i, p.length + 1 - i = n → i ≤ ski
 /-- The `while (!last)` loop of `check_symlinks_fsobj`.  `head` and `tail` are
 offsets into `path`; the C temporarily writes a NUL at `tail`, so the string it
 passes to the kernel is `path[head, tail)`. -/
-def checkLoop (fl : XFlags) (linkname : Bool) (path : List Nat) (head tail : Nat) : Prog St :=
+def checkLoopIdx (fl : XFlags) (linkname : Bool) (path : List Nat) (head tail : Nat) : Prog St :=
   let t2 := skipElem path (skipSlashes path tail)
   let c := rd path t2
   let last := c == some 0 || c == none || (c == some SLASH && rd path (t2 + 1) == some 0)
@@ -185,7 +185,7 @@ def checkLoop (fl : XFlags) (linkname : Bool) (path : List Nat) (head tail : Nat
   /- what happens at the bottom of the loop body: "tail[0] = c; if (tail[0] != '\0') tail++;" -/
   let next (head' : Nat) : Prog St :=
     if last then pure .ok
-    else if _h : t2 < path.length then checkLoop fl linkname path head' (t2 + 1) else pure .ok
+    else if _h : t2 < path.length then checkLoopIdx fl linkname path head' (t2 + 1) else pure .ok
   do
     let r ← sys (.dLstat seg)
     match r with
@@ -230,13 +230,73 @@ decreasing_by
     have h2 := skipElem_ge path _ (skipSlashes path tail) rfl
     omega
 
-/-- `check_symlinks_fsobj(path, …, flags, checking_linkname)`. -/
-def checkSymlinks (fl : XFlags) (linkname : Bool) (path : List Nat) : Prog St :=
+/-- `check_symlinks_fsobj(path, …, flags, checking_linkname)`, string-index form
+(kept as a second, literal transcription; `checkSymlinks` below is the form the
+theorems and the other programs use; the `pathclean` engine runs both). -/
+def checkSymlinksIdx (fl : XFlags) (linkname : Bool) (path : List Nat) : Prog St :=
   if path = [] then pure .ok else do
     let _ ← sys .dOpenCwd
     -- "Skip the root directory if the path is absolute."
     let tail := if rd path 0 = some SLASH then 1 else 0
-    let r ← checkLoop fl linkname path 0 tail
+    let r ← checkLoopIdx fl linkname path 0 tail
+    let _ ← sys .dClose
+    pure r
+
+/-- The `while (!last)` loop of `check_symlinks_fsobj` on the components of a
+*cleaned* path (no empty component, no trailing '/': the only strings the
+library passes).  `hd` are the components between `head` and the current one:
+`head` is advanced only when the walk steps into a directory, so after a
+non-directory (or after an intervening symlink removed under UNLINK) the next
+`fstatat` is given `hd/…/c` relative to the same directory descriptor. -/
+def checkLoop (fl : XFlags) (linkname : Bool) : List Name → List Name → Prog St
+  | _, [] => pure .ok
+  | hd, c :: rest =>
+    let last := rest.isEmpty
+    let seg := joinSlash (hd ++ [c])
+    do
+      let r ← sys (.dLstat seg)
+      match r with
+      | .err .ENOENT => pure .ok                    -- "We've hit a dir that doesn't exist; stop now."
+      | .err _ => pure .failed                      -- "Could not stat"
+      | .st ⟨.dir, _⟩ =>
+        if !last then do
+          let r2 ← sys (.dOpenDir seg)
+          match r2 with
+          | .err _ => pure .fatal                   -- "Could not chdir"
+          | _ => checkLoop fl linkname [] rest      -- "Our view is now from inside this dir"
+        else pure .ok
+      | .st ⟨.lnk, _⟩ =>
+        if last && linkname then pure .ok           -- HAVE_LINKAT: hardlinks to symlinks are safe
+        else if last then do
+          let r2 ← sys (.dUnlink seg)               -- "Last element is symlink; remove it"
+          match r2 with
+          | .err _ => pure .failed
+          | _ => pure .ok
+        else if fl.unlink then do
+          let r2 ← sys (.dUnlink seg)               -- "User asked us to remove problems."
+          match r2 with
+          | .err _ => pure .failed
+          | _ => checkLoop fl linkname (hd ++ [c]) rest
+        else if !fl.secureSymlinks then do
+          let r2 ← sys (.dStat seg)
+          match r2 with
+          | .err .ENOENT => pure .ok
+          | .err _ => pure .failed
+          | .st ⟨.dir, _⟩ => do
+            let r3 ← sys (.dOpenDir seg)
+            match r3 with
+            | .err _ => pure .fatal
+            | _ => checkLoop fl linkname [] rest
+          | _ => pure .failed                       -- "Cannot extract through symlink"
+        else pure .failed                           -- "Cannot extract through symlink"
+      | _ => if last then pure .ok else checkLoop fl linkname (hd ++ [c]) rest
+
+/-- `check_symlinks_fsobj` on a cleaned path.  For an absolute path `head` starts
+at the leading '/', so the first `fstatat` gets "/c1": `hd = [""]`. -/
+def checkSymlinks (fl : XFlags) (linkname : Bool) (path : List Nat) : Prog St :=
+  if path = [] then pure .ok else do
+    let _ ← sys .dOpenCwd
+    let r ← checkLoop fl linkname (if isAbs path then [[]] else []) (compsOf path)
     let _ ← sys .dClose
     pure r
 
